@@ -566,6 +566,17 @@ pub fn scenarios() -> Vec<Scenario>
 			expect: Expect::Accept("v=42\n".to_string()),
 		});
 	}
+	// (3c) a public function that shares its name with a constant of its module
+	{
+		let lib = "const value: i32 = 7;\npub fn value() -> i32\n{\n\treturn: value + 1\n}\n".to_string();
+		let m = "import \"m1.pn\";\n\nfn main() -> u8\n{\n\tprint!(\"v=\", value(), \"\\n\");\n\treturn: 0\n}\n".to_string();
+		out.push(Scenario {
+			name: "a public function that shares its name with a private constant of its module".to_string(),
+			class: "function named like a constant",
+			files: vec![("m0.pn".into(), m), ("m1.pn".into(), lib)],
+			expect: Expect::Accept("v=8\n".to_string()),
+		});
+	}
 	// (4) names of the importer must not be captured by what it imports
 	{
 		let lib = "const B: i32 = 5;\npub const A: i32 = B * 2;\npub fn lib_a() -> i32\n{\n\treturn: A\n}\n".to_string();
